@@ -1,16 +1,841 @@
 /-
-  Proofs/C17.lean — helper lemmas for Props/C17.lean (byte packing, Python slices as drop/take, the cut loop).
+  Proofs/C17.lean — helper lemmas for Props/C17.lean: byte packing (`chunks8`, `toBytes`, `bytesToBits`),
+  Python step-1 slices as drop/take, `BitStore` with `modified_length`, the `cut` loop invariant,
+  the three window readers, `Array.fromfile`.
 -/
 import BitstringModel.Model.C17
 import BitstringModel.Proofs.Basic
 import BitstringModel.Proofs.C01
 import Mathlib.Data.List.Basic
-
 namespace BM.C17
 open BM
 
-/-- A store is well formed when its `modified_length` (if any) does not exceed the buffer — what
-    `BitStore.frombuffer` checks before it stores the value. -/
-def Store.WF (s : Store) : Prop := ∀ n, s.modLen = some n → n ≤ s.buf.length
+/-- A store is well formed when its `modified_length`, if set, is the buffer length — all that
+    `BitStore.frombuffer` leaves behind (a shorter length is read into memory, a longer one is refused). -/
+def Store.WF (s : Store) : Prop := ∀ n, s.modLen = some n → n = s.buf.length
+
+theorem padLen_lt (n : Nat) : padLen n < 8 := by unfold padLen; omega
+theorem padLen_dvd (n : Nat) : (n + padLen n) % 8 = 0 := by unfold padLen; omega
+theorem padLen_of_dvd (n : Nat) (h : n % 8 = 0) : padLen n = 0 := by unfold padLen; omega
+theorem padLen_add_mul (n k : Nat) : padLen (8 * k + n) = padLen n := by unfold padLen; omega
+
+@[simp] theorem padded_length (l : Bits) : (padded l).length = l.length + padLen l.length := by
+  simp [padded]
+
+theorem chunks8_short (p : Bits) (h : p.length < 8) : chunks8 p = [] := by
+  have : p.length / 8 = 0 := by omega
+  simp [chunks8, this]
+
+theorem chunks8_cons (a q : Bits) (ha : a.length = 8) : chunks8 (a ++ q) = bitsToNat a :: chunks8 q := by
+  unfold chunks8
+  have hl : (a ++ q).length / 8 = q.length / 8 + 1 := by
+    rw [List.length_append, ha]; omega
+  rw [hl, List.range_succ_eq_map, List.map_cons, List.map_map]
+  congr 1
+  · simp [byteAt, ha]
+  · apply List.map_congr_left
+    intro k _
+    simp only [Function.comp, byteAt]
+    have : 8 * (k + 1) = a.length + 8 * k := by omega
+    rw [this, List.drop_append, List.drop_of_length_le (by omega)]
+    simp
+
+theorem chunks8_cons8 (p : Bits) (h : 8 ≤ p.length) :
+    chunks8 p = bitsToNat (p.take 8) :: chunks8 (p.drop 8) := by
+  conv_lhs => rw [← List.take_append_drop 8 p]
+  exact chunks8_cons _ _ (by simp; omega)
+
+theorem chunks8_append (a b : Bits) (k : Nat) (h : a.length = 8 * k) :
+    chunks8 (a ++ b) = chunks8 a ++ chunks8 b := by
+  induction k generalizing a with
+  | zero => 
+    have : a = [] := List.eq_nil_of_length_eq_zero (by omega)
+    subst this; simp [chunks8_short]
+  | succ k ih =>
+    have h8 : 8 ≤ a.length := by omega
+    rw [chunks8_cons8 a h8]
+    conv_lhs => rw [← List.take_append_drop 8 a, List.append_assoc]
+    rw [chunks8_cons _ _ (by simp; omega), ih (a.drop 8) (by simp; omega)]
+    simp
+
+theorem bytesToBits_nil : bytesToBits [] = [] := rfl
+theorem bytesToBits_cons (x : Nat) (xs : Bytes) : bytesToBits (x :: xs) = natToBits 8 x ++ bytesToBits xs := by
+  simp [bytesToBits]
+theorem bytesToBits_append (a b : Bytes) : bytesToBits (a ++ b) = bytesToBits a ++ bytesToBits b := by
+  simp [bytesToBits]
+@[simp] theorem bytesToBits_length (bs : Bytes) : (bytesToBits bs).length = 8 * bs.length := by
+  induction bs with
+  | nil => rfl
+  | cons x xs ih => rw [bytesToBits_cons]; simp [ih]; omega
+
+theorem bytesToBits_chunks8 (p : Bits) (k : Nat) (h : p.length = 8 * k) : bytesToBits (chunks8 p) = p := by
+  induction k generalizing p with
+  | zero =>
+    have : p = [] := List.eq_nil_of_length_eq_zero (by omega)
+    subst this; rfl
+  | succ k ih =>
+    rw [chunks8_cons8 p (by omega), bytesToBits_cons, ih (p.drop 8) (by simp; omega)]
+    have h8 : (p.take 8).length = 8 := by simp; omega
+    have := natToBits_bitsToNat (p.take 8)
+    rw [h8] at this
+    rw [this, List.take_append_drop]
+
+theorem chunks8_bytesToBits (bs : Bytes) (h : ∀ b ∈ bs, b < 256) : chunks8 (bytesToBits bs) = bs := by
+  induction bs with
+  | nil => rfl
+  | cons x xs ih =>
+    rw [bytesToBits_cons, chunks8_cons _ _ (by simp), ih (fun b hb => h b (List.mem_cons_of_mem _ hb))]
+    rw [bitsToNat_natToBits 8 x (by have := h x (List.mem_cons_self); omega)]
+
+
+theorem toBytes_nil : toBytes [] = [] := by decide
+
+theorem padded_dvd (l : Bits) : (padded l).length = 8 * ((l.length + 7) / 8) := by
+  rw [padded_length]; unfold padLen; omega
+
+theorem toBytes_length' (l : Bits) : (toBytes l).length = (l.length + 7) / 8 := by
+  simp only [toBytes, chunks8, List.length_map, List.length_range, padded_dvd]
+  omega
+
+theorem byteAt_lt (p : Bits) (k : Nat) : byteAt p k < 256 := by
+  unfold byteAt
+  have h := bitsToNat_lt ((p.drop (8 * k)).take 8)
+  have hl : ((p.drop (8 * k)).take 8).length ≤ 8 := List.length_take_le _ _
+  calc _ < 2 ^ ((p.drop (8 * k)).take 8).length := h
+    _ ≤ 2 ^ 8 := Nat.pow_le_pow_right (by omega) hl
+
+theorem toBytes_lt_256' (l : Bits) : ∀ b ∈ toBytes l, b < 256 := by
+  intro b hb
+  simp only [toBytes, chunks8, List.mem_map] at hb
+  obtain ⟨k, _, rfl⟩ := hb
+  exact byteAt_lt _ _
+
+theorem bytesToBits_toBytes (l : Bits) : bytesToBits (toBytes l) = padded l :=
+  bytesToBits_chunks8 _ _ (padded_dvd l)
+
+theorem padded_of_dvd (l : Bits) (h : l.length % 8 = 0) : padded l = l := by
+  simp [padded, padLen_of_dvd _ h]
+
+theorem toBytes_of_dvd (l : Bits) (h : l.length % 8 = 0) : toBytes l = chunks8 l := by
+  rw [toBytes, padded_of_dvd l h]
+
+theorem toBytes_append (a b : Bits) (h : a.length % 8 = 0) : toBytes (a ++ b) = toBytes a ++ toBytes b := by
+  have hk : a.length = 8 * (a.length / 8) := by omega
+  have hp : padded (a ++ b) = a ++ padded b := by
+    simp only [padded, List.length_append, List.append_assoc]
+    rw [hk, padLen_add_mul]
+  rw [toBytes, hp, chunks8_append a _ _ hk, toBytes_of_dvd a h, toBytes]
+
+theorem toBytes_cons8 (l : Bits) (h : 8 ≤ l.length) :
+    toBytes l = bitsToNat (l.take 8) :: toBytes (l.drop 8) := by
+  conv_lhs => rw [← List.take_append_drop 8 l]
+  have h8 : (l.take 8).length = 8 := by simp; omega
+  rw [toBytes_append _ _ (by omega), toBytes_of_dvd _ (by omega)]
+  have := chunks8_cons (l.take 8) [] h8
+  rw [List.append_nil] at this
+  rw [this, chunks8_short [] (by simp)]
+  rfl
+
+theorem toBytes_lt8 (l : Bits) (h0 : l ≠ []) (h : l.length < 8) :
+    toBytes l = [bitsToNat (l ++ List.replicate (8 - l.length) false)] := by
+  have hpos : 0 < l.length := List.length_pos_iff.mpr h0
+  have hp : padLen l.length = 8 - l.length := by unfold padLen; omega
+  have := chunks8_cons (l ++ List.replicate (8 - l.length) false) [] (by simp; omega)
+  rw [List.append_nil] at this
+  rw [toBytes, padded, hp, this, chunks8_short [] (by simp)]
+
+theorem baToBytesAux_nil (fuel : Nat) : baToBytesAux fuel [] = [] := by
+  cases fuel <;> simp [baToBytesAux]
+
+theorem baToBytesAux_eq (fuel : Nat) (l : Bits) (h : (l.length + 7) / 8 ≤ fuel) :
+    baToBytesAux fuel l = toBytes l := by
+  induction fuel generalizing l with
+  | zero =>
+    have : l = [] := List.eq_nil_of_length_eq_zero (by omega)
+    subst this; rfl
+  | succ fuel ih =>
+    by_cases h0 : l = []
+    · subst h0; rw [baToBytesAux_nil, toBytes_nil]
+    · have hne : l.isEmpty = false := by cases l <;> simp_all
+      simp only [baToBytesAux, hne]
+      by_cases h8 : 8 ≤ l.length
+      · have ht : (l.take 8).length = 8 := by simp; omega
+        rw [toBytes_cons8 l h8, ih (l.drop 8) (by simp; omega), ht]
+        simp
+      · have hlt : l.length < 8 := by omega
+        rw [List.take_of_length_le (by omega), List.drop_of_length_le (by omega), baToBytesAux_nil,
+          toBytes_lt8 l h0 hlt]
+        simp
+
+theorem baToBytes_eq (l : Bits) : baToBytes l = toBytes l :=
+  baToBytesAux_eq _ _ (by omega)
+
+
+/-! ### Python slices -/
+
+def clamp1 (n : Nat) (x : Int) : Int := if x < 0 then max (x + n) 0 else min x n
+
+theorem sliceIndices_one (s e : Option Int) (n : Nat) :
+    Py.sliceIndices s e 1 n =
+      ((match s with | none => 0 | some x => clamp1 n x),
+       (match e with | none => (n : Int) | some x => clamp1 n x), 1) := by
+  have h1 : ¬ ((1 : Int) < 0) := by omega
+  cases s <;> cases e <;> simp [Py.sliceIndices, clamp1, h1]
+
+theorem getSlice_eq_pySlice {α} (l : List α) (s e : Option Int) :
+    Py.getSlice l s e none = .ok (pySlice l s e) := by
+  rw [BM.C01.getSlice_step1]; rfl
+
+theorem pySlice_nat {α} (l : List α) (a b : Nat) :
+    pySlice l (some (a : Int)) (some (b : Int)) = (l.drop a).take (b - a) := by
+  unfold pySlice
+  rw [sliceIndices_one]
+  simp only [clamp1]
+  have ha : ¬ ((a : Int) < 0) := by omega
+  have hb : ¬ ((b : Int) < 0) := by omega
+  simp only [ha, hb, if_false]
+  by_cases hal : a ≤ l.length
+  · have h1 : (min (a : Int) (l.length : Int)).toNat = a := by omega
+    rw [h1, List.take_eq_take_iff]
+    simp only [List.length_drop]
+    omega
+  · rw [List.drop_of_length_le (by omega), List.drop_of_length_le (by omega)]
+    simp
+
+theorem pySlice_int {α} (l : List α) (a b : Int) (ha : 0 ≤ a) (hb : 0 ≤ b) :
+    pySlice l (some a) (some b) = (l.drop a.toNat).take (b.toNat - a.toNat) := by
+  have := pySlice_nat l a.toNat b.toNat
+  rwa [Int.toNat_of_nonneg ha, Int.toNat_of_nonneg hb] at this
+
+theorem pySlice_none_some {α} (l : List α) (b : Nat) : pySlice l none (some (b : Int)) = l.take b := by
+  unfold pySlice
+  rw [sliceIndices_one]
+  simp only [clamp1]
+  have hb : ¬ ((b : Int) < 0) := by omega
+  simp only [hb, if_false, Int.toNat_zero, List.drop_zero, Int.sub_zero]
+  rw [List.take_eq_take_iff]; omega
+
+theorem pySlice_some_none {α} (l : List α) (a : Nat) : pySlice l (some (a : Int)) none = l.drop a := by
+  unfold pySlice
+  rw [sliceIndices_one]
+  simp only [clamp1]
+  have ha : ¬ ((a : Int) < 0) := by omega
+  simp only [ha, if_false]
+  by_cases hal : a ≤ l.length
+  · have h1 : (min (a : Int) (l.length : Int)).toNat = a := by omega
+    rw [h1, List.take_of_length_le (by simp; omega)]
+  · rw [List.drop_of_length_le (by omega), List.drop_of_length_le (by omega)]
+    simp
+
+theorem pySlice_none_none {α} (l : List α) : pySlice l none none = l := by
+  unfold pySlice
+  rw [sliceIndices_one]
+  simp
+
+theorem clamp1_bounds (n : Nat) (x : Int) : 0 ≤ clamp1 n x ∧ clamp1 n x ≤ n := by
+  unfold clamp1; split <;> omega
+
+theorem sliceIndices_one_bounds (s e : Option Int) (n : Nat) :
+    0 ≤ (Py.sliceIndices s e 1 n).1 ∧ (Py.sliceIndices s e 1 n).1 ≤ n ∧
+    0 ≤ (Py.sliceIndices s e 1 n).2.1 ∧ (Py.sliceIndices s e 1 n).2.1 ≤ n := by
+  rw [sliceIndices_one]
+  have := clamp1_bounds n
+  cases s <;> cases e <;> simp <;> grind
+
+/-- Clamping twice is clamping once. -/
+theorem pySlice_clamped {α} (l : List α) (s e : Option Int) :
+    pySlice l (some (Py.sliceIndices s e 1 l.length).1) (some (Py.sliceIndices s e 1 l.length).2.1) = pySlice l s e := by
+  have hb := sliceIndices_one_bounds s e l.length
+  generalize hx : (Py.sliceIndices s e 1 l.length) = t at hb
+  obtain ⟨a, b, c⟩ := t
+  simp only at hb ⊢
+  conv_rhs => unfold pySlice; rw [hx]
+  unfold pySlice
+  rw [sliceIndices_one]
+  simp only [clamp1]
+  have h1 : ¬ (a < 0) := by omega
+  have h2 : ¬ (b < 0) := by omega
+  simp only [h1, h2, if_false]
+  have h3 : min a (l.length : Int) = a := by omega
+  have h4 : min b (l.length : Int) = b := by omega
+  rw [h3, h4]
+
+
+/-! ### stores -/
+
+theorem wf_of_none (s : Store) (h : s.modLen = none) : s.WF := by
+  intro n hn; rw [h] at hn; cases hn
+
+theorem wf_mem (l : Bits) : (Store.mem l).WF := wf_of_none _ rfl
+
+theorem bin_eq (s : Store) :
+    s.bin = match s.modLen with
+      | none => s.buf
+      | some n => s.buf.take n := by
+  unfold Store.bin Store.getslice
+  cases h : s.modLen with
+  | none => simp [pySlice_none_none]
+  | some n =>
+    simp only
+    have h1 : (Py.sliceIndices none none 1 n) = (0, (n : Int), 1) := by
+      rw [sliceIndices_one]
+    rw [h1]
+    have := pySlice_nat s.buf 0 n
+    simpa using this
+
+theorem bin_of_none (s : Store) (h : s.modLen = none) : s.bin = s.buf := by
+  rw [bin_eq, h]
+
+theorem wf_bin (s : Store) (h : s.WF) : s.bin = s.buf := by
+  rw [bin_eq]
+  cases hm : s.modLen with
+  | none => rfl
+  | some n => simp [h n hm]
+
+theorem wf_len (s : Store) (h : s.WF) : s.len = s.buf.length := by
+  unfold Store.len
+  cases hm : s.modLen with
+  | none => rfl
+  | some n => simp [h n hm]
+
+theorem wf_getslice (s : Store) (h : s.WF) (a b : Option Int) :
+    s.getslice a b = ⟨pySlice s.buf a b, none, false⟩ := by
+  unfold Store.getslice
+  cases hm : s.modLen with
+  | none => rfl
+  | some n =>
+    simp only
+    rw [h n hm, pySlice_clamped]
+
+theorem tobytes_eq (s : Store) : s.tobytes = toBytes s.bin := by
+  rw [bin_eq]
+  unfold Store.tobytes
+  cases s.modLen with
+  | none => simp [baToBytes_eq]
+  | some n => simp [baToBytes_eq, pySlice_none_some]
+
+
+/-! ### the cut loop -/
+
+/-- One chunk of a well-formed store: `take bits` of what is left. -/
+theorem cut_chunk (s : Store) (h : s.WF) (bits start : Nat) :
+    s.getslice (some (start : Int)) (some ((min (start + bits) s.buf.length : Nat) : Int))
+      = ⟨(s.buf.drop start).take bits, none, false⟩ := by
+  rw [wf_getslice s h, pySlice_nat]
+  congr 1
+  rw [List.take_eq_take_iff]
+  simp only [List.length_drop]
+  omega
+
+theorem cutLoop_spec (s : Store) (h : s.WF) (bits : Nat) (hpos : 0 < bits) (fuel start : Nat)
+    (hs : start ≤ s.buf.length) (hf : s.buf.length - start < fuel) :
+    ((cutLoop s bits s.buf.length fuel start).map Store.bin).flatten = s.buf.drop start ∧
+    (bits % 8 = 0 →
+      (cutLoop s bits s.buf.length fuel start).flatMap Store.tobytes = toBytes (s.buf.drop start)) := by
+  induction fuel generalizing start with
+  | zero => omega
+  | succ fuel ih =>
+    simp only [cutLoop]
+    rw [cut_chunk s h]
+    generalize hr : s.buf.drop start = r
+    have hrl : r.length = s.buf.length - start := by rw [← hr]; simp
+    simp only [Store.len]
+    by_cases h0 : (r.take bits).length = 0
+    · have : r = [] := by
+        have : r.length = 0 := by
+          rw [List.length_take] at h0; omega
+        exact List.eq_nil_of_length_eq_zero this
+      subst this
+      simp [toBytes_nil]
+    · simp only [h0, if_false]
+      by_cases hfull : (r.take bits).length = bits
+      · have hle : bits ≤ r.length := by rw [List.length_take] at hfull; omega
+        have hih := ih (start + bits) (by omega) (by omega)
+        have hd : s.buf.drop (start + bits) = r.drop bits := by rw [← hr, List.drop_drop]
+        rw [hd] at hih
+        simp only [hfull, ne_eq, not_true_eq_false, if_false, List.map_cons, List.flatten_cons,
+          List.flatMap_cons]
+        refine ⟨?_, ?_⟩
+        · rw [hih.1, bin_of_none _ rfl]
+          exact List.take_append_drop _ _
+        · intro h8
+          rw [hih.2 h8, tobytes_eq, bin_of_none _ rfl]
+          rw [← toBytes_append _ _ (by rw [hfull]; exact h8), List.take_append_drop]
+      · have hlt : r.length < bits := by rw [List.length_take] at hfull; omega
+        have htk : r.take bits = r := List.take_of_length_le (by omega)
+        simp only [hfull, ne_eq, not_false_eq_true, if_true, List.map_cons, List.map_nil,
+          List.flatten_cons, List.flatten_nil, List.flatMap_cons, List.flatMap_nil, List.append_nil]
+        refine ⟨?_, ?_⟩
+        · rw [bin_of_none _ rfl, htk]
+        · intro _
+          rw [tobytes_eq, bin_of_none _ rfl, htk]
+
+theorem tofile_eq (chunk : Nat) (s : Store) (hwf : s.WF) (h8 : chunk % 8 = 0) (hpos : 0 < chunk) :
+    tofile chunk s = .ok (toBytes s.bin) := by
+  unfold tofile cut
+  have hc : ¬ chunk = 0 := by omega
+  simp only [hc, if_false, Except.map]
+  rw [wf_len s hwf, wf_bin s hwf]
+  have := (cutLoop_spec s hwf chunk hpos (s.buf.length + 1) 0 (by omega) (by omega)).2 h8
+  rw [this]; simp
+
+theorem cut_flatten_eq (chunk : Nat) (s : Store) (hwf : s.WF) (hpos : 0 < chunk) (cs : List Store)
+    (h : cut s chunk = .ok cs) : (cs.map Store.bin).flatten = s.bin := by
+  unfold cut at h
+  have hc : ¬ chunk = 0 := by omega
+  simp only [hc, if_false] at h
+  injection h with h
+  subst h
+  rw [wf_len s hwf, wf_bin s hwf]
+  have := (cutLoop_spec s hwf chunk hpos (s.buf.length + 1) 0 (by omega) (by omega)).1
+  simpa using this
+
+
+/-! ### windows -/
+
+theorem bytesToBits_drop (data : Bytes) (a : Nat) :
+    bytesToBits (data.drop a) = (bytesToBits data).drop (8 * a) := by
+  induction a generalizing data with
+  | zero => simp
+  | succ a ih =>
+    cases data with
+    | nil => simp [bytesToBits_nil]
+    | cons x xs =>
+      rw [List.drop_succ_cons, ih, bytesToBits_cons]
+      have : 8 * (a + 1) = (natToBits 8 x).length + 8 * a := by simp; omega
+      have e1 : List.drop ((natToBits 8 x).length + 8 * a) (natToBits 8 x) = [] :=
+        List.drop_of_length_le (by omega)
+      rw [this, List.drop_append, e1]
+      simp
+
+theorem bytesToBits_take (data : Bytes) (a : Nat) :
+    bytesToBits (data.take a) = (bytesToBits data).take (8 * a) := by
+  induction a generalizing data with
+  | zero => simp [bytesToBits_nil]
+  | succ a ih =>
+    cases data with
+    | nil => simp [bytesToBits_nil]
+    | cons x xs =>
+      rw [List.take_succ_cons, bytesToBits_cons, ih, bytesToBits_cons]
+      have : 8 * (a + 1) = (natToBits 8 x).length + 8 * a := by simp; omega
+      have e1 : List.take ((natToBits 8 x).length + 8 * a) (natToBits 8 x) = natToBits 8 x :=
+        List.take_of_length_le (by omega)
+      rw [this, List.take_append, e1]
+      simp
+
+theorem validWindow_iff (n : Nat) (off len : Option Int) :
+    validWindow n off len = true ↔ (0 ≤ offD off ∧ 0 ≤ lenD n off len ∧ offD off + lenD n off len ≤ n) := by
+  simp [validWindow, and_assoc]
+
+/-- A window inside a window. -/
+theorem window_window (X : Bits) (a m b L : Nat) (h : b + L ≤ m) :
+    (((X.drop a).take m).drop b).take L = (X.drop (a + b)).take L := by
+  rw [List.drop_take, List.take_take, List.drop_drop]
+  congr 1
+  omega
+
+theorem readSpec_def (data : Bytes) (off len : Option Int) :
+    readSpec data off len =
+      ((bytesToBits data).drop (offD off).toNat).take (lenD (8 * data.length) off len).toNat := rfl
+
+/-- `_setbytes_with_truncation` on a valid window. -/
+theorem setBytes_valid (data : Bytes) (off len : Option Int)
+    (h : validWindow (8 * data.length) off len = true) :
+    setBytes data len off = .ok ⟨readSpec data off len, none, false⟩ := by
+  rw [validWindow_iff] at h
+  obtain ⟨h1, h2, h3⟩ := h
+  rw [readSpec_def]
+  have key : ∀ (o L : Int), 0 ≤ o → 0 ≤ L →
+      (Store.frombytes data).getslice (some o) (some (o + L))
+        = ⟨((bytesToBits data).drop o.toNat).take L.toNat, none, false⟩ := by
+    intro o L ho hL
+    simp only [Store.getslice, Store.frombytes]
+    rw [pySlice_int _ _ _ ho (by omega)]
+    congr 2
+    omega
+  cases off with
+  | none =>
+    cases len with
+    | none =>
+      simp only [setBytes, Store.frombytes, offD, lenD, Option.getD_none, Int.toNat_zero, List.drop_zero]
+      rw [List.take_of_length_le (by simp)]
+    | some L =>
+      simp only [offD, lenD, Option.getD_none, Option.getD_some] at h1 h2 h3
+      simp only [setBytes, offD, lenD, Option.getD_none, Option.getD_some]
+      have : ¬ (L + 0 > (data.length : Int) * 8) := by omega
+      simp only [this, if_false]
+      have := key 0 L (by omega) h2
+      simpa using this
+  | some o =>
+    cases len with
+    | none =>
+      simp only [offD, lenD, Option.getD_none, Option.getD_some] at h1 h2 h3
+      simp only [setBytes, offD, lenD, Option.getD_none, Option.getD_some]
+      rw [key o _ h1 (by omega)]
+      congr 3
+      omega
+    | some L =>
+      simp only [offD, lenD, Option.getD_some] at h1 h2 h3
+      simp only [setBytes, offD, lenD, Option.getD_some]
+      have : ¬ (L + o > (data.length : Int) * 8) := by omega
+      simp only [this, if_false]
+      rw [key o L h1 h2]
+
+
+/-- The BytesIO branch: byte range first, then the bit window inside it. -/
+theorem bytesio_core (data : Bytes) (o L : Int) (ho : 0 ≤ o) (hL : 0 ≤ L) :
+    (Store.frombytes (pySlice data (some (o / 8)) (some (o / 8 + ((L + o / 8 * 8 + o % 8 + 7) / 8 - o / 8))))).getslice
+        (some (o % 8)) (some (o % 8 + L))
+      = ⟨((bytesToBits data).drop o.toNat).take L.toNat, none, false⟩ := by
+  have hbo : 0 ≤ o / 8 := by omega
+  have hr : 0 ≤ o % 8 := by omega
+  rw [pySlice_int _ _ _ hbo (by omega)]
+  simp only [Store.getslice, Store.frombytes]
+  rw [pySlice_int _ _ _ hr (by omega), bytesToBits_take, bytesToBits_drop]
+  have hw : (o % 8).toNat + ((o % 8 + L).toNat - (o % 8).toNat)
+      ≤ 8 * ((o / 8 + ((L + o / 8 * 8 + o % 8 + 7) / 8 - o / 8)).toNat - (o / 8).toNat) := by omega
+  rw [window_window _ _ _ _ _ hw]
+  have e1 : 8 * (o / 8).toNat + (o % 8).toNat = o.toNat := by omega
+  have e2 : (o % 8 + L).toNat - (o % 8).toNat = L.toNat := by omega
+  rw [e1, e2]
+
+theorem setBytesIO_valid (data : Bytes) (off len : Option Int)
+    (h : validWindow (8 * data.length) off len = true) :
+    setBytesIO data len off = .ok ⟨readSpec data off len, none, false⟩ := by
+  rw [validWindow_iff] at h
+  obtain ⟨h1, h2, h3⟩ := h
+  rw [readSpec_def]
+  cases off with
+  | none =>
+    cases len with
+    | none =>
+      simp only [setBytesIO, Store.frombytes, offD, lenD, Option.getD_none, Int.toNat_zero, List.drop_zero]
+      rw [List.take_of_length_le (by simp)]
+    | some L =>
+      simp only [offD, lenD, Option.getD_none, Option.getD_some] at h1 h2 h3
+      simp only [setBytesIO, offD, lenD, Option.getD_none, Option.getD_some]
+      have : ¬ (L + (0 : Int) / 8 * 8 + 0 % 8 > (data.length : Int) * 8) := by omega
+      simp only [this, if_false]
+      rw [bytesio_core data 0 L (by omega) h2]
+  | some o =>
+    cases len with
+    | none =>
+      simp only [offD, lenD, Option.getD_none, Option.getD_some] at h1 h2 h3
+      simp only [setBytesIO, offD, lenD, Option.getD_none, Option.getD_some]
+      have : ¬ ((data.length : Int) * 8 - o + o / 8 * 8 + o % 8 > (data.length : Int) * 8) := by omega
+      simp only [this, if_false]
+      rw [bytesio_core data o _ h1 (by omega)]
+      congr 3
+      omega
+    | some L =>
+      simp only [offD, lenD, Option.getD_some] at h1 h2 h3
+      simp only [setBytesIO, offD, lenD, Option.getD_some]
+      have : ¬ (L + o / 8 * 8 + o % 8 > (data.length : Int) * 8) := by omega
+      simp only [this, if_false]
+      rw [bytesio_core data o L h1 h2]
+
+theorem getslice_modLen (s : Store) (a b : Option Int) : (s.getslice a b).modLen = none := by
+  unfold Store.getslice; cases s.modLen <;> rfl
+
+theorem frombuffer_wf (data : Bytes) (length : Option Int) (s : Store)
+    (h : Store.frombuffer data length = .ok s) : s.WF := by
+  unfold Store.frombuffer at h
+  cases length with
+  | none => simp only at h; injection h with h; subst h; exact wf_of_none _ rfl
+  | some n =>
+    simp only at h
+    split at h
+    · cases h
+    · split at h
+      · cases h
+      · split at h
+        · injection h with h; subst h; exact wf_of_none _ rfl
+        · injection h with h; subst h
+          intro m hm
+          simp only [Option.some.injEq] at hm
+          subst hm
+          simp only [bytesToBits_length] at *
+          omega
+
+/-- `_setfile` on a valid window of a non-empty file. -/
+theorem setFile_valid (data : Bytes) (off len : Option Int) (hne : data ≠ [])
+    (h : validWindow (8 * data.length) off len = true) :
+    ∃ s, setFile data len off = .ok s ∧ s.WF ∧ s.bin = readSpec data off len := by
+  rw [validWindow_iff] at h
+  obtain ⟨h1, h2, h3⟩ := h
+  have hlen : ¬ data.length = 0 := by
+    intro h0; exact hne (List.eq_nil_of_length_eq_zero h0)
+  rw [readSpec_def]
+  unfold setFile
+  simp only [hlen, if_false]
+  have hoff : off.getD 0 = offD off := rfl
+  rw [hoff]
+  by_cases ho : offD off = 0
+  · simp only [ho, if_true, Int.toNat_zero, List.drop_zero]
+    cases len with
+    | none =>
+      refine ⟨_, rfl, wf_of_none _ rfl, ?_⟩
+      rw [bin_of_none _ rfl]
+      simp only [lenD, Option.getD_none, ho]
+      rw [List.take_of_length_le (by simp)]
+    | some L =>
+      simp only [lenD, Option.getD_some, ho] at h2 h3
+      simp only [Store.frombuffer, lenD, Option.getD_some]
+      have c1 : ¬ (L < 0) := by omega
+      have c2 : ¬ (L > ((bytesToBits data).length : Int)) := by simp; omega
+      simp only [c1, c2, if_false]
+      by_cases c3 : L < ((bytesToBits data).length : Int)
+      · simp only [c3, if_true]
+        refine ⟨_, rfl, wf_of_none _ rfl, ?_⟩
+        rw [bin_of_none _ rfl]
+        have := pySlice_none_some (bytesToBits data) L.toNat
+        rw [Int.toNat_of_nonneg (by omega)] at this
+        exact this
+      · simp only [c3, if_false]
+        have hL : L.toNat = (bytesToBits data).length := by simp at c3 ⊢; omega
+        have hwf : Store.WF ⟨bytesToBits data, some L.toNat, true⟩ := by
+          intro m hm
+          simp only [Option.some.injEq] at hm
+          show m = (bytesToBits data).length
+          omega
+        refine ⟨_, rfl, hwf, ?_⟩
+        rw [wf_bin _ hwf, hL, List.take_of_length_le (by omega)]
+  · simp only [ho, if_false]
+    have hpos : 0 < offD off := by omega
+    cases len with
+    | none =>
+      simp only [lenD, Option.getD_none] at h2 h3 ⊢
+      have c1 : ¬ (offD off > ((Store.len ⟨bytesToBits data, none, true⟩ : Nat) : Int)) := by
+        simp [Store.len]; omega
+      simp only [c1, if_false]
+      refine ⟨_, rfl, wf_of_none _ (getslice_modLen _ _ _), ?_⟩
+      rw [bin_of_none _ (getslice_modLen _ _ _)]
+      simp only [Store.getslice]
+      have := pySlice_some_none (bytesToBits data) (offD off).toNat
+      rw [Int.toNat_of_nonneg (by omega)] at this
+      rw [this, List.take_of_length_le (by simp; omega)]
+    | some L =>
+      simp only [lenD, Option.getD_some] at h2 h3 ⊢
+      have hg : (Store.getslice ⟨bytesToBits data, none, true⟩ (some (offD off)) (some (offD off + L)))
+          = ⟨((bytesToBits data).drop (offD off).toNat).take L.toNat, none, false⟩ := by
+        simp only [Store.getslice]
+        rw [pySlice_int _ _ _ (by omega) (by omega)]
+        congr 2
+        omega
+      rw [hg]
+      have c1 : ¬ (((Store.len ⟨((bytesToBits data).drop (offD off).toNat).take L.toNat, none, false⟩ : Nat) : Int) ≠ L) := by
+        simp [Store.len]; omega
+      simp only [c1, if_false]
+      exact ⟨_, rfl, wf_of_none _ rfl, bin_of_none _ rfl⟩
+
+
+/-! ### classes, construct -/
+
+theorem finish_good (cls : Cls) (s : Store) (h : s.WF) : (finish cls s).WF ∧ (finish cls s).bin = s.bin := by
+  unfold finish
+  split
+  · exact ⟨wf_of_none _ rfl, by rw [bin_of_none _ rfl, wf_bin s h]; rfl⟩
+  · exact ⟨h, rfl⟩
+
+theorem setBytes_wf (data : Bytes) (off len : Option Int) (s : Store)
+    (h : setBytes data len off = .ok s) : s.WF := by
+  apply wf_of_none
+  unfold setBytes at h
+  split at h
+  · injection h with h; subst h; rfl
+  · split at h
+    · injection h with h; subst h; exact getslice_modLen _ _ _
+    · simp only at h
+      split at h
+      · cases h
+      · injection h with h; subst h; exact getslice_modLen _ _ _
+
+theorem setBytesIO_wf (data : Bytes) (off len : Option Int) (s : Store)
+    (h : setBytesIO data len off = .ok s) : s.WF := by
+  apply wf_of_none
+  unfold setBytesIO at h
+  split at h
+  · injection h with h; subst h; rfl
+  · simp only at h
+    split at h
+    · cases h
+    · injection h with h; subst h; exact getslice_modLen _ _ _
+
+theorem setFile_wf (data : Bytes) (off len : Option Int) (s : Store)
+    (h : setFile data len off = .ok s) : s.WF := by
+  unfold setFile at h
+  split at h
+  · cases h
+  · simp only at h
+    split at h
+    · exact frombuffer_wf _ _ _ h
+    · split at h
+      · split at h
+        · cases h
+        · injection h with h; subst h; exact wf_of_none _ (getslice_modLen _ _ _)
+      · split at h
+        · cases h
+        · injection h with h; subst h; exact wf_of_none _ (getslice_modLen _ _ _)
+
+theorem construct_ok_iff (cls : Cls) (k : Src) (data : Bytes) (off len : Option Int) (s : Store) :
+    construct cls k data len off = .ok s ↔
+      ∃ s0, (match k with
+             | .bytes => setBytes data len off
+             | .bytesio => setBytesIO data len off
+             | .file => setFile data len off) = .ok s0 ∧ s = finish cls s0 := by
+  cases k
+  · cases h : setBytes data len off <;> simp [construct, h, Except.map, eq_comm]
+  · cases h : setBytesIO data len off <;> simp [construct, h, Except.map, eq_comm]
+  · cases h : setFile data len off <;> simp [construct, h, Except.map, eq_comm]
+
+theorem construct_wf' (cls : Cls) (k : Src) (data : Bytes) (off len : Option Int) (s : Store)
+    (h : construct cls k data len off = .ok s) : s.WF := by
+  rw [construct_ok_iff] at h
+  obtain ⟨s0, h0, rfl⟩ := h
+  refine (finish_good cls s0 ?_).1
+  cases k
+  · exact setBytes_wf _ _ _ _ h0
+  · exact setBytesIO_wf _ _ _ _ h0
+  · exact setFile_wf _ _ _ _ h0
+
+theorem construct_valid (cls : Cls) (k : Src) (data : Bytes) (off len : Option Int)
+    (hk : k = .file → data ≠ []) (h : validWindow (8 * data.length) off len = true) :
+    ∃ s, construct cls k data len off = .ok s ∧ s.WF ∧ s.bin = readSpec data off len := by
+  have core : ∃ s0, (match k with
+             | .bytes => setBytes data len off
+             | .bytesio => setBytesIO data len off
+             | .file => setFile data len off) = .ok s0 ∧ s0.WF ∧ s0.bin = readSpec data off len := by
+    cases k
+    · exact ⟨_, setBytes_valid data off len h, wf_of_none _ rfl, bin_of_none _ rfl⟩
+    · exact ⟨_, setBytesIO_valid data off len h, wf_of_none _ rfl, bin_of_none _ rfl⟩
+    · exact setFile_valid data off len (hk rfl) h
+  obtain ⟨s0, h0, hwf, hbin⟩ := core
+  refine ⟨finish cls s0, ?_, (finish_good cls s0 hwf).1, ?_⟩
+  · rw [construct_ok_iff]; exact ⟨s0, h0, rfl⟩
+  · rw [(finish_good cls s0 hwf).2, hbin]
+
+theorem construct_valid_bin (cls : Cls) (k : Src) (data : Bytes) (off len : Option Int)
+    (hk : k = .file → data ≠ []) (h : validWindow (8 * data.length) off len = true) :
+    (construct cls k data len off).map Store.bin = .ok (readSpec data off len) := by
+  obtain ⟨s, hs, _, hb⟩ := construct_valid cls k data off len hk h
+  rw [hs]; simp [Except.map, hb]
+
+
+/-! ### round trips, Array -/
+
+theorem ok_bind {α β} (a : α) (f : α → Except Err β) : (Except.ok a >>= f) = f a := rfl
+
+theorem toBytes_ne_nil (l : Bits) (h : l ≠ []) : toBytes l ≠ [] := by
+  intro h0
+  have h1 := toBytes_length' l
+  rw [h0] at h1
+  have : 0 < l.length := List.length_pos_iff.mpr h
+  simp at h1; omega
+
+theorem readSpec_toBytes (l : Bits) : readSpec (toBytes l) none (some (l.length : Int)) = l := by
+  rw [readSpec_def, bytesToBits_toBytes]
+  simp [offD, lenD, padded]
+
+theorem valid_toBytes (l : Bits) :
+    validWindow (8 * (toBytes l).length) none (some (l.length : Int)) = true := by
+  rw [validWindow_iff, toBytes_length']
+  simp only [offD, lenD, Option.getD_none, Option.getD_some]
+  omega
+
+theorem roundtrip_eq (cls : Cls) (k : Src) (chunk : Nat) (l : Bits) (h8 : chunk % 8 = 0) (hpos : 0 < chunk)
+    (hne : k = .file → l ≠ []) :
+    (tofile chunk (Store.mem l) >>= fun w =>
+      (construct cls k w (some (l.length : Int)) none).map Store.bin) = .ok l := by
+  rw [tofile_eq chunk _ (wf_mem l) h8 hpos, ok_bind, bin_of_none _ rfl]
+  show (construct cls k (toBytes l) (some (l.length : Int)) none).map Store.bin = .ok l
+  rw [construct_valid_bin cls k (toBytes l) none (some (l.length : Int))
+    (fun hk => toBytes_ne_nil l (hne hk)) (valid_toBytes l), readSpec_toBytes]
+
+theorem arrayTobytes_eq' (data : Bits) : arrayTobytes data = toBytes data := by
+  unfold arrayTobytes; rw [tobytes_eq, bin_of_none _ rfl]; rfl
+
+theorem arrayTofile_eq' (chunk : Nat) (data : Bits) (h8 : chunk % 8 = 0) (hpos : 0 < chunk) :
+    arrayTofile chunk data = .ok (toBytes data) := by
+  unfold arrayTofile; rw [tofile_eq chunk _ (wf_mem data) h8 hpos, bin_of_none _ rfl]; rfl
+
+/-- What `Bits(f)` gives inside `Array.fromfile`. -/
+theorem fromfile_source (file : Bytes) (fk : FKind) (hfile : fk = .handle → file ≠ []) :
+    ∃ im, fromfileSource file fk = .ok ⟨bytesToBits file, none, im⟩ := by
+  cases fk with
+  | bytesio => exact ⟨false, rfl⟩
+  | handle =>
+    have hlen : ¬ file.length = 0 := by
+      intro h0; exact hfile rfl (List.eq_nil_of_length_eq_zero h0)
+    exact ⟨true, by simp [fromfileSource, setFile, hlen, Store.frombuffer]⟩
+
+theorem take_items {α} (l : List α) (m isz : Nat) :
+    pySlice l (some 0) (some ((m : Int) * (isz : Int))) = l.take (m * isz) := by
+  have := pySlice_nat l 0 (m * isz)
+  simpa using this
+
+theorem arrayFromfile_eq (data : Bits) (isz : Nat) (file : Bytes) (fk : FKind) (n : Option Int)
+    (hisz : 0 < isz) (htr : data.length % isz = 0) (hfile : fk = .handle → file ≠ [])
+    (hn : ∀ k, n = some k → 0 ≤ k ∧ k ≤ ((8 * file.length / isz : Nat) : Int)) :
+    arrayFromfile data isz file fk n =
+      .ok (data ++ (bytesToBits file).take ((match n with
+                                              | none => 8 * file.length / isz
+                                              | some k => k.toNat) * isz)) := by
+  obtain ⟨im, hsrc⟩ := fromfile_source file fk hfile
+  have h0 : ¬ isz = 0 := by omega
+  have h1 : ¬ (data.length % isz ≠ 0) := by omega
+  cases n with
+  | none =>
+    simp only [arrayFromfile, h0, h1, if_false, hsrc, ok_bind, itemsToAppend, Store.len, Store.getslice,
+      bytesToBits_length]
+    rw [take_items]
+  | some k =>
+    obtain ⟨hk0, hk1⟩ := hn k rfl
+    obtain ⟨m, rfl⟩ := Int.eq_ofNat_of_zero_le hk0
+    have hmin : min (m : Int) ((8 * file.length / isz : Nat) : Int) = (m : Int) := by omega
+    have hlt : ¬ ((m : Int) < (m : Int)) := by omega
+    simp only [arrayFromfile, h0, h1, if_false, hsrc, ok_bind, itemsToAppend, Store.len, Store.getslice,
+      bytesToBits_length, hmin, hlt, Int.toNat_natCast]
+    rw [take_items]
+
+theorem arrayFromfile_trailing' (data : Bits) (isz : Nat) (file : Bytes) (fk : FKind) (n : Option Int)
+    (hisz : 0 < isz) (htr : data.length % isz ≠ 0) :
+    arrayFromfile data isz file fk n = .error .value := by
+  have h0 : ¬ isz = 0 := by omega
+  simp [arrayFromfile, h0, htr]
+
+theorem arrayFromfile_short' (data : Bits) (isz : Nat) (file : Bytes) (fk : FKind) (k : Int)
+    (hisz : 0 < isz) (htr : data.length % isz = 0) (hk : ((8 * file.length / isz : Nat) : Int) < k) :
+    ∃ e, arrayFromfile data isz file fk (some k) = .error e := by
+  have h0 : ¬ isz = 0 := by omega
+  have h1 : ¬ (data.length % isz ≠ 0) := by omega
+  simp only [arrayFromfile, h0, h1, if_false]
+  cases hs : fromfileSource file fk with
+  | error e => exact ⟨e, rfl⟩
+  | ok s =>
+    rw [ok_bind]
+    have hlen : s.len = 8 * file.length := by
+      cases fk with
+      | bytesio =>
+        simp only [fromfileSource] at hs
+        injection hs with hs; subst hs; simp [Store.len, Store.frombytes]
+      | handle =>
+        simp only [fromfileSource, setFile] at hs
+        split at hs
+        · cases hs
+        · simp [Store.frombuffer] at hs
+          subst hs; simp [Store.len]
+    have hmin : min k ((s.len / isz : Nat) : Int) < k := by rw [hlen]; omega
+    simp only [itemsToAppend, hmin, if_true]
+    exact ⟨_, rfl⟩
+
+theorem array_roundtrip_eq (data : Bits) (isz chunk : Nat) (fk : FKind) (h8 : chunk % 8 = 0) (hpos : 0 < chunk)
+    (hisz : 0 < isz) (hne : fk = .handle → data ≠ []) :
+    (arrayTofile chunk data >>= fun w => arrayFromfile [] isz w fk none) =
+      .ok ((padded data).take ((padded data).length / isz * isz)) := by
+  rw [arrayTofile_eq' chunk data h8 hpos, ok_bind,
+    arrayFromfile_eq [] isz (toBytes data) fk none hisz (by simp)
+      (fun hk => toBytes_ne_nil data (hne hk)) (by intro k hk; cases hk)]
+  simp only [List.nil_append, bytesToBits_toBytes]
+  rw [toBytes_length', padded_dvd]
 
 end BM.C17
